@@ -6,3 +6,6 @@ const RaceBuild = false
 
 func hideSync()   {}
 func unhideSync() {}
+
+// LongCap shortens a long history for binaries built with the race detector (not this one).
+func LongCap(n, cap int) int { return n }
